@@ -488,6 +488,13 @@ func (s *Sim) Go(fn func()) *Task {
 		s.mu.Unlock()
 		close(reg)
 		defer func() {
+			// a panic that no instrumented function recovered (it was raised in code
+			// the instrumenter leaves untouched) is a run outcome, not a dead worker
+			if r := recover(); r != nil {
+				s.mu.Lock()
+				s.Panics = append(s.Panics, PanicRec{Task: t.ID, Site: "client", Value: fmt.Sprint(r)})
+				s.mu.Unlock()
+			}
 			s.mu.Lock()
 			t.Done = true
 			s.mu.Unlock()
